@@ -58,7 +58,7 @@ pub enum POp {
 #[derive(Clone, Debug, Serialize, Deserialize, PartialEq)]
 pub struct PortsSc {
     pub cfg: SimCfg,
-    /// generated with the triggers of O4 (failed connects) and O11 (half-dead connections) avoided
+    /// generated with the triggers of O11 (address-pair keyed stream table) avoided
     pub guarded: bool,
     pub hosts: usize,
     pub ops: Vec<POp>,
@@ -182,7 +182,14 @@ fn gstate(sc: &PortsSc, upto: usize) -> GState {
                     st.objs.push(GObj { slot: 2 * k + 1, host: l.host, kind: GKind::Stream { conn: k, accepted: true }, in_range: l.in_range });
                 }
             }
-            POp::ConnectRefused { host, .. } | POp::ConnectCancelled { host, .. } => st.failed_connect[*host] = true,
+            POp::ConnectRefused { host, .. } => st.failed_connect[*host] = true,
+            POp::ConnectCancelled { host, .. } => {
+                st.failed_connect[*host] = true;
+                // the abandoned connect answers with a RST that may meet a later connection on the same pair
+                if !settled_after {
+                    st.stale_possible = true;
+                }
+            }
             POp::Write { slot } => {
                 if st.objs.iter().any(|o| o.slot == *slot && matches!(o.kind, GKind::Stream { .. })) {
                     st.stale_possible = true;
@@ -307,14 +314,19 @@ fn gen_ports(rng: &mut Rng) -> PortsSc {
                     }
                     *rng.pick(&[CVia::Ip, CVia::Name])
                 };
-                if !guarded && rng.chance(1, 6) {
-                    POp::ConnectCancelled { host, lslot: l.slot, via, ticks: rng.range(1, 4) as u16 }
+                if rng.chance(1, 6) {
+                    sc.ops.push(POp::ConnectCancelled { host, lslot: l.slot, via, ticks: rng.range(1, 4) as u16 });
+                    if guarded {
+                        // the abandoned connect sends a RST: let it leave the network (O11 guard)
+                        sc.ops.push(POp::Sleep { ticks: settle_ticks(&sc) });
+                    }
+                    continue;
                 } else {
                     POp::Connect { host, lslot: l.slot, via }
                 }
             }
             11 => {
-                if guarded || !room {
+                if !room {
                     continue;
                 }
                 let to = rng.usize(0, hosts - 1);
@@ -1359,7 +1371,7 @@ fn parse_h(msg: &str) -> Option<usize> {
 }
 
 fn guards_ok(sc: &PortsSc) -> bool {
-    !sc.guarded || (!o4_exposed(sc) && !o11_exposed(sc))
+    !sc.guarded || !o11_exposed(sc)
 }
 
 impl Property for C15 {
@@ -1381,7 +1393,7 @@ impl Property for C15 {
             "operations are executed one at a time, so 'in use at that instant' is exact".into(),
             "the kind of error of a failing connect and the pairing of connects and accepts are C12's subject and not judged here".into(),
             "lookup_host of a name that was never looked up and reverse_lookup of an address that belongs to no name are recorded, not judged".into(),
-            "95% of the port scenarios avoid the triggers of O4 (refused / cancelled connects) and O11 (connector side of a connection dropped, crashed or reset while the accepted side lives on); 5% contain them".into(),
+            "95% of the port scenarios avoid the triggers of known finding O11 (connector side of a connection dropped, crashed or reset while the accepted side lives on; writes; stream ends, crashes and abandoned connects not followed by a settling pause; a fixed listener bind on a port of the range while an outgoing stream lives); 5% contain them. Refused and cancelled connects are generated everywhere (O4 is fixed in /repo, 8fcc78f)".into(),
         ]
     }
     fn budget(tier: Tier) -> u64 {
